@@ -22,6 +22,7 @@ import PsutilModel.Proofs.C04Whole
 import PsutilModel.Proofs.C04Fine
 import PsutilModel.Proofs.C04Flag
 import PsutilModel.Proofs.C04Keep
+import PsutilModel.Proofs.C04Status
 import PsutilModel.Model.C04Gen
 namespace Psutil.C04
 open Spec
@@ -1452,5 +1453,117 @@ theorem C04_clear_dropping_flags_counterexample :
     ∧ (step shipped (runAll shipped (clearDroppingFlags s) histAfterClear) (.isRunning 1)).2 = .bool false
     ∧ (step shipped (runAll shipped (clearDroppingFlags s) histAfterClear) (.isRunning 1)).1.flagged = [] := by
   decide
+
+/-! ## seeded round 5b — the TEXT of `/proc/<n>/status`: the thread-group id is compared AS A NUMBER
+
+    The clause "`pid_exists()` is False for thread IDs and agrees with `pids()`" used to rest on the abstract
+    answer `Kernel.readStatus` (a number) and the model's `t == n`. `Model/C04Status.lean` transcribes the scan
+    of the file's bytes, `Spec/C04Status.lean` says what the kernel prints; the theorems quantify over every
+    id asked about, every thread-group id printed (so every textual relation between the two decimals: proper
+    prefix, suffix, same digits …) and every text around the `Tgid:` line. -/
+
+/-- **obligation.** the statements of `_pslinux.pid_exists` are the ones `scanTgid` / `linuxPidExistsText`
+    transcribe: probe first; the lines of `/proc/<pid>/status` in order; the FIRST line starting with `Tgid:`;
+    its second blank-separated field through `int()`; `==` with the argument; no such line → ValueError;
+    OSError / ValueError → `pid in pids()`. Any rewrite of the function changes this fact and stops the build
+    (the correspondence family `tid_digits` / `status_text` then looks for a concrete id). -/
+theorem cfg_tgid_scan :
+    Gen.C04.tgidScan =
+      ["0:if not _psposix.pid_exists(pid):", "1:return False", "0:else:", "1:try:",
+       "2:path = f'{get_procfs_path()}/{pid}/status'", "2:with open_binary(path) as f:", "3:for line in f:",
+       "4:if line.startswith(b'Tgid:'):", "5:tgid = int(line.split()[1])", "5:return tgid == pid",
+       "3:msg = f\"'Tgid' line not found in {path}\"", "3:raise ValueError(msg)",
+       "1:except (OSError, ValueError):", "2:return pid in pids()"] := by decide
+
+/-- **C04_tgid_field_compared_as_number.** On ANY status text in the kernel's format — any lines before the
+    `Tgid:` line that start with their own key, anything at all after it — and for ANY two numbers: the scan ends
+    in `return tgid == pid` with the thread-group id that was printed, i.e. it answers whether the two NUMBERS are
+    equal. In particular `n = 123`, `tgid = 1234` (a thread whose id is a decimal prefix of its process's):
+    False. -/
+theorem C04_tgid_field_compared_as_number (t : StatusText) (hwf : t.WF) (n : Nat) :
+    scanStatus t.render n = .eq (t.tgid == n) := scanStatus_render t hwf n
+
+/-- **C04_linux_pidExists_text_refines.** `_pslinux.pid_exists(n)` run on the BYTES of a status file in the
+    kernel's format that carries the thread-group id the table gives `n` (after any table changes `mid` between
+    probe and read) is the abstract `linuxPidExists` — so `C04_linux_pidExists_two_instants`, `C04_linux_pidExists_iff`,
+    `C04_platform_eq` and `C04_pidExists_iff` speak about the text-level function. -/
+theorem C04_linux_pidExists_text_refines (k : Kernel) (n : Nat) (mid : List KEv) (t : StatusText) (hwf : t.WF)
+    (hd : (k.applyAll mid).readStatus n = .tgid t.tgid) :
+    linuxPidExistsText k n mid (some t.render) = linuxPidExists k n mid := by
+  unfold linuxPidExistsText linuxPidExists
+  cases posixPidExists k n with
+  | bool e =>
+    cases e with
+    | false => rfl
+    | true =>
+      simp only [scanStatus_render t hwf n, hd]
+  | _ => rfl
+
+/-- the other two kinds of status file: it cannot be opened (= `linuxPidExistsDenied`), or it has no line
+    starting with `Tgid:` (ValueError → the listing, as `readStatus = .noTgid`) -/
+theorem C04_linux_pidExists_text_other (k : Kernel) (n : Nat) (mid : List KEv) :
+    linuxPidExistsText k n mid none = linuxPidExistsDenied k n mid
+    ∧ ∀ content, (∀ l ∈ linesOf content, startsWith tgidKey l = false) →
+        (k.applyAll mid).readStatus n = .noTgid →
+        linuxPidExistsText k n mid (some content) = linuxPidExists k n mid := by
+  refine ⟨?_, ?_⟩
+  · unfold linuxPidExistsText linuxPidExistsDenied
+    cases posixPidExists k n with
+    | bool e => cases e <;> rfl
+    | _ => rfl
+  · intro content hc hd
+    unfold linuxPidExistsText linuxPidExists
+    cases posixPidExists k n with
+    | bool e =>
+      cases e with
+      | false => rfl
+      | true => simp only [scanStatus, scanTgid_none _ n hc, hd]
+    | _ => rfl
+
+/-- **C04_linux_pidExists_text_iff.** The clause at text level: on a well-formed table, whatever the status file
+    of `n` looks like around its `Tgid:` line, `_pslinux.pid_exists(n)` is a bool, True exactly when `n` is a
+    listed PID. -/
+theorem C04_linux_pidExists_text_iff (k : Kernel) (hwf : k.WF) (n : Nat) (hb : n ≤ pidTMax)
+    (t : StatusText) (ht : t.WF) (hd : k.readStatus n = .tgid t.tgid) :
+    ∃ b, (linuxPidExistsText k n [] (some t.render)).2 = .bool b ∧ (b = true ↔ n ∈ k.listdir) := by
+  rw [C04_linux_pidExists_text_refines k n [] t ht (by simpa [Kernel.applyAll] using hd)]
+  exact C04_linux_pidExists_iff k hwf n hb
+
+/-- **C04_thread_id_text_false.** `pid_exists()` is False for thread IDs, at text level: `n` is the id of a
+    thread (not of a process) whose status file prints the thread-group id `th.tgid` — ANY number, however its
+    decimal digits relate to those of `n` — among any other lines: the answer is False. -/
+theorem C04_thread_id_text_false (k : Kernel) (hwf : k.WF) (n : Nat) (hb : n ≤ pidTMax) (th : Thr)
+    (hp : k.findProc n = none) (hth : k.findThr n = some th)
+    (t : StatusText) (ht : t.WF) (htg : t.tgid = th.tgid) :
+    (linuxPidExistsText k n [] (some t.render)).2 = .bool false := by
+  have hd : k.readStatus n = .tgid t.tgid := by simp [Kernel.readStatus, hp, hth, htg]
+  obtain ⟨b, h1, h2⟩ := C04_linux_pidExists_text_iff k hwf n hb t ht hd
+  have hnl : n ∉ k.listdir := by
+    rw [mem_listdir]; rintro ⟨p, hp', e⟩; exact findProc_none hp p hp' e
+  cases b with
+  | false => exact h1
+  | true => exact absurd (h2.mp rfl) hnl
+
+/-- the status file of thread 123 of process 1234, as the kernel prints it (`Name:\tp`, `Tgid:\t1234`, `Pid:\t123`) -/
+def status123of1234 : StatusText :=
+  ⟨[[78, 97, 109, 101, 58, 9, 112]], 1234, [[80, 105, 100, 58, 9, 49, 50, 51]]⟩
+
+/-- non-vacuity + **why `cfg_tgid_scan` is an obligation** (seeded change C04-5): the text is well formed and is
+    these three lines; the code as it is answers `1234 == 123` = False, the same scan comparing the field as TEXT
+    (the decimal of the argument only has to be a prefix of the field — `scanTgidPrefix`, not the code) answers
+    True for the thread id 123, which no listing contains. -/
+theorem C04_tgid_prefix_match_counterexample :
+    status123of1234.WF
+    ∧ status123of1234.lines = [[78, 97, 109, 101, 58, 9, 112], [84, 103, 105, 100, 58, 9, 49, 50, 51, 52],
+                                 [80, 105, 100, 58, 9, 49, 50, 51]]
+    ∧ scanTgid 123 status123of1234.lines = .eq false
+    ∧ scanTgidPrefix [49, 50, 51] status123of1234.lines = .eq true
+    ∧ (linuxPidExists ⟨[⟨1234, 10, false, false, .ok⟩], [⟨123, 1234, 11⟩]⟩ 123 []).2 = .bool false := by
+  have hl : status123of1234.lines = [[78, 97, 109, 101, 58, 9, 112], [84, 103, 105, 100, 58, 9, 49, 50, 51, 52],
+                                      [80, 105, 100, 58, 9, 49, 50, 51]] := by
+    simp [status123of1234, StatusText.lines, tgidLine, tgidLabel, renderDec, renderRadix, renderRadixAux, decimal]
+  refine ⟨(StatusText.wfb_iff _).mp (by decide), hl, ?_, ?_, by decide⟩
+  · rw [hl]; decide
+  · rw [hl]; decide
 
 end Psutil.C04
